@@ -133,6 +133,9 @@ impl TransportVisitor for V {
         };
         let mut frame = vec![0u8; 12];
         frame.extend([7u8; 20]);
+        // Ranges shared when the driver is idle (its permanently posted receive buffers).
+        let idle_shares = hal::with(|h| h.live_share_count());
+        let mut runt_after = false;
         match &mut d {
             AnyDriver::Blk(b) => {
                 let mut buf = vec![0u8; 512];
@@ -226,6 +229,7 @@ impl TransportVisitor for V {
                 while let Some(r) = held.pop() {
                     op!("recycle_rx_buffer(newest first)", n.recycle_rx_buffer(r));
                 }
+                runt_after = true;
             }
             AnyDriver::Rng(r) => {
                 let mut dst = [0u8; 16];
@@ -267,10 +271,32 @@ impl TransportVisitor for V {
                 op!("output_streams", s.output_streams());
                 op!("pcm_set_params", s.pcm_set_params(0, 8, 4, PcmFeatures::empty(), 1, PcmFormat::U8, PcmRate::Rate8000));
                 op!("pcm_prepare", s.pcm_prepare(0));
+                // The device takes its time with the first transfer: the first pcm_xfer_ok comes
+                // before it has used the buffers, the second one after.
+                co.borrow_mut().responder = Box::new(move |q, chain, req| {
+                    if q == 2 {
+                        cosim::Action::Hold
+                    } else {
+                        let data = cosim::honest_response(kind, q, req, chain.writable_len());
+                        let n = data.len() as u32;
+                        cosim::Action::Complete(data, n)
+                    }
+                });
                 let tok = op!("pcm_xfer_nb", s.pcm_xfer_nb(0, &[1, 2, 3, 4]));
                 if let Some(Ok(tok)) = tok {
-                    op!("pcm_xfer_ok", s.pcm_xfer_ok(tok));
+                    let early = op!("pcm_xfer_ok(before the device used it)", s.pcm_xfer_ok(tok));
+                    co.borrow_mut().responder = cosim::honest_responder(kind);
+                    let mut done = [0u8; 8];
+                    done[0..4].copy_from_slice(&0x8000u32.to_le_bytes());
+                    co.borrow_mut().complete_held(2, 0, &done, 8);
+                    if !matches!(early, Some(Ok(()))) {
+                        let r = op!("pcm_xfer_ok(second attempt)", s.pcm_xfer_ok(tok));
+                        if !matches!(r, Some(Ok(()))) && LEDGER_MODE.with(|m| m.get()) {
+                            report(Violation::new("C04", "driver:completion-not-consumable", format!("sound driver: the transfer whose first pcm_xfer_ok came before the device had used its buffers can no longer be completed: {:?}", r)));
+                        }
+                    }
                 }
+                co.borrow_mut().responder = cosim::honest_responder(kind);
                 op!("pcm_xfer", s.pcm_xfer(0, &[1, 2, 3, 4, 5, 6, 7, 8, 9]));
                 fill(1, &[0, 0x11, 0, 0, 1, 0, 0, 0]);
                 op!("latest_notification", s.latest_notification());
@@ -285,6 +311,53 @@ impl TransportVisitor for V {
                 let mut resp = [0u8; 32];
                 op!("request", p.request(&[7, 0, 0, 0, 100, 0, 0], &mut resp));
                 op!("request#2", p.request(&[7, 0, 0, 0, 100, 0, 0], &mut resp));
+            }
+        }
+        let mut shares_before_runt = None;
+        if runt_after {
+            if let AnyDriver::NetBuf(n) = &mut d {
+                shares_before_runt = Some(hal::with(|h| h.live_share_count()));
+                // While the caller holds a received buffer the device completes another one with
+                // fewer bytes than a packet header; then the held buffer goes back. A submission
+                // the driver refuses must leave nothing shared, and every later completion is
+                // unshared with exactly what was shared for it.
+                fill(0, &frame);
+                let mut held = vec![];
+                op!("receive(held)", n.receive().map(|r| held.push(r)));
+                fill(0, &[1, 2, 3]);
+                op!("receive(runt)", n.receive().map(|r| held.push(r)));
+                while let Some(r) = held.pop() {
+                    let before = hal::with(|h| h.live_share_count());
+                    let res = op!("recycle_rx_buffer(after a runt)", n.recycle_rx_buffer(r));
+                    let after = hal::with(|h| h.live_share_count());
+                    if !matches!(res, Some(Ok(()))) && after != before && LEDGER_MODE.with(|m| m.get()) {
+                        report(Violation::new("C04", "driver:refused-submission-shared", format!("net driver: recycle_rx_buffer returned {:?} but {} ranges are shared after the call and {} before it", res, after, before)));
+                    }
+                }
+                for _ in 0..16 {
+                    fill(0, &frame);
+                }
+                for _ in 0..16 {
+                    op!("receive(after a runt)", n.receive().map(|r| held.push(r)));
+                }
+                while !held.is_empty() {
+                    let r = held.remove(0);
+                    op!("recycle_rx_buffer(after a runt, oldest first)", n.recycle_rx_buffer(r));
+                }
+            }
+        }
+        // Every request of the script has been completed and consumed: what is shared now is what
+        // was shared when the driver was idle after construction (plus the receive buffers the
+        // raw net script deliberately leaves posted).
+        if LEDGER_MODE.with(|m| m.get()) {
+            let now = hal::with(|h| h.live_share_count());
+            let extra = if kind == Kind::NetRaw { 2 } else { 0 };
+            // The console script ends with received data still unread: its receive buffer is
+            // legitimately not posted at that point.
+            // (A net receive buffer completed with less than a header may be given up.)
+            let ok = if kind == Kind::Console || shares_before_runt.is_some() { now <= idle_shares } else { now == idle_shares + extra };
+            if !ok {
+                report(Violation::new("C04", "driver:share-leak", format!("{} driver: {} ranges shared after every request of the script was completed and consumed, {} when the driver was idle after construction{}", kind.name(), now, idle_shares, if extra != 0 { " (+2 receive buffers left posted on purpose)" } else { "" })));
             }
         }
         // Interrupt suppression through the drivers' own switches: without event index the device
